@@ -336,12 +336,14 @@ contract(A + "preserve_context.restore_eliot_context", props=["C06"], types={"ar
          modifies=["*"],
          ensures=[("first-caller-runs-the-function-once-and-passes-its-result-through",
                    "not old(is_locked(called)) and RAN and box(result) == RET", ["C06"]),
+                  ("the-callable-stays-used-up", "is_locked(called)", ["C06"]),
                   ("the-function-gets-the-very-same-arguments", "CARGS == old(seq(args)) and CKW == old(dict_of(kwargs))", ["C06"]),
                   ("context-restored", "CTX[me] == old(CTX[me])", ["C04", "C05"])],
          raises=[{"cls": "TooManyCalls", "when": "old(is_locked(called))", "iff": True,
                   "ensures": [("every-other-call-raises-TooManyCalls-without-running-the-function", "NTOP[f] == old(NTOP[f]) and LOG == old(LOG)", ["C06"])]},
                  {"cls": "BaseException", "ensures": [("the-function's-own-exception-passes-through", "not old(is_locked(called)) and CTX[me] == old(CTX[me])", ["C06"]),
-                              ("nothing-else-raises: the function was called", "RAN", ["C06"])]}])
+                              ("nothing-else-raises: the function was called", "RAN", ["C06"]),
+                              ("the-callable-stays-used-up-also-after-a-failing-call (at most once, whatever the outcome)", "is_locked(called)", ["C06"])]}])
 specfun("is_locked", ["l"], "typed(l.locked_flag, 'bool')")
 specfun("last_user_call_returned", ["f", "r"], "True")
 
